@@ -48,4 +48,10 @@ theorem handleChanClose_translated (s : ExecState) (p : CtlParams) (hn : s.chanH
           · mgsimp [Out.chans, prog_wsConn_handleChanClose, chanEnv, frameExt, CtlParams.decoded, errVal, encParam, shapeName, unmarshalU64, hh, hg, hm]
           · simp [Jrpc.handleChanClose, CtlParams.decoded, JVal.chanIdOf, hm]
 
+/-- C10 over the regenerated code: no params member of an `xrpc.ch.close` frame makes `handleChanClose` panic. -/
+theorem C10_handleChanClose_never_panics (s : ExecState) (p : CtlParams) (hn : s.chanHandlers.Nodup) :
+    (run (frameExt p) prog_wsConn_handleChanClose (chanEnv s)).isPanic = false := by
+  obtain ⟨_, h, _⟩ := handleChanClose_translated s p hn
+  exact not_panic_of_fx h
+
 end Jrpc.Trans
